@@ -16,6 +16,9 @@ private theorem getSchemeByID_known {s : String} (h : s ∈ Gen.schemeNames) : g
   have hne : s ≠ "" := fun e => empty_not_scheme (e ▸ h)
   simp [getSchemeByID, schemeFromName, hne, h]
 
+private theorem getSchemeByID_empty : getSchemeByID "" = .ok Gen.defaultSchemeID := by
+  simp [getSchemeByID, schemeFromName, Gen.schemeNames, Gen.defaultSchemeID]
+
 private theorem schemeFromName_known {s : String} (h : s ∈ Gen.schemeNames) : schemeFromName s = .ok s := by
   simp [schemeFromName, h]
 
@@ -219,5 +222,436 @@ theorem c20_group_proto (strict : Bool) (L : Leaf) (ok : LeafOK L) (g : Group) (
     rw [hp]
     simp only [idPart_canon]
     rfl
+
+/-! ### decoding rejects out-of-range thresholds and unknown schemes -/
+
+/-- the range the property speaks of: `n/2+1 ≤ thr ≤ n` -/
+def thresholdInRange (thr : Int) (n : Nat) : Prop := (Gen.minimumT n : Int) ≤ thr ∧ thr ≤ (n : Int)
+
+/-- TOML path (group file, DKG record): every mirror whose threshold is out of range for its node list is rejected -/
+theorem c20_reject_threshold_toml (L : Leaf) (gt : GroupTOML) (h : ¬ thresholdInRange gt.threshold gt.nodes.length) :
+    ∃ e, Group.fromTOML L gt = .error e := by
+  unfold Group.fromTOML
+  cases getSchemeByID gt.schemeID with
+  | error e => exact ⟨e, rfl⟩
+  | ok sch =>
+    simp only
+    cases hm : mapE (Node.fromTOML L) gt.nodes with
+    | error e => exact ⟨e, rfl⟩
+    | ok nodes =>
+      simp only
+      have hl := mapE_length _ _ _ hm
+      by_cases h1 : gt.threshold < (Gen.minimumT gt.nodes.length : Nat)
+      · exact ⟨.thresholdLow, by simp [h1]⟩
+      · by_cases h2 : gt.threshold > (nodes.length : Nat)
+        · exact ⟨.thresholdHigh, by simp [h1, h2]⟩
+        · exfalso
+          apply h
+          unfold thresholdInRange
+          rw [hl] at h2
+          omega
+
+/-- Full statement, protobuf path — proved for the corrected variant (`strict = true`):
+every packet whose threshold is out of range for its node list is rejected. -/
+theorem c20_reject_threshold_proto (L : Leaf) (p : GroupPacket) (target : Option String)
+    (h : ¬ thresholdInRange p.threshold p.nodes.length) :
+    ∃ e, Group.fromProto true L p target = .error e := by
+  unfold Group.fromProto
+  cases schemeFromName p.schemeID with
+  | error e => exact ⟨e, rfl⟩
+  | ok sch =>
+    simp only
+    by_cases ht : targetMismatch target sch = true
+    · exact ⟨.schemeMismatch, by simp [ht]⟩
+    · simp only [ht]
+      cases hm : mapE (nodeFromProto L sch) p.nodes with
+      | error e => exact ⟨e, rfl⟩
+      | ok nodes =>
+        simp only
+        have hl := mapE_length _ _ _ hm
+        by_cases h1 : p.threshold < Gen.minimumT nodes.length
+        · exact ⟨.thresholdLow, by simp [h1]⟩
+        · by_cases h2 : p.threshold > nodes.length
+          · exact ⟨.thresholdHigh, by simp [h1, h2]⟩
+          · exfalso
+            apply h
+            unfold thresholdInRange
+            rw [hl] at h1 h2
+            omega
+
+/-- The code as it is (`strict = false`) only satisfies the statement above for packets that carry at least one
+node: that is the hypothesis the proof forces. -/
+theorem c20_reject_threshold_proto_partial (L : Leaf) (p : GroupPacket) (target : Option String)
+    (hne : p.nodes ≠ []) (h : ¬ thresholdInRange p.threshold p.nodes.length) :
+    ∃ e, Group.fromProto false L p target = .error e := by
+  unfold Group.fromProto
+  cases schemeFromName p.schemeID with
+  | error e => exact ⟨e, rfl⟩
+  | ok sch =>
+    simp only
+    by_cases ht : targetMismatch target sch = true
+    · exact ⟨.schemeMismatch, by simp [ht]⟩
+    · simp only [ht]
+      cases hm : mapE (nodeFromProto L sch) p.nodes with
+      | error e => exact ⟨e, rfl⟩
+      | ok nodes =>
+        simp only
+        have hl := mapE_length _ _ _ hm
+        have hpos : nodes.length > 0 := by
+          rw [hl]; exact List.length_pos_iff.2 hne
+        by_cases h1 : p.threshold < Gen.minimumT nodes.length
+        · exact ⟨.thresholdLow, by simp [h1]⟩
+        · by_cases h2 : p.threshold > nodes.length
+          · exact ⟨.thresholdHigh, by simp [h1, h2, hpos]⟩
+          · exfalso
+            apply h
+            unfold thresholdInRange
+            rw [hl] at h1 h2
+            omega
+
+/-- a permissive leaf for concrete witnesses -/
+def Leaf.permissive : Leaf :=
+  { hexEnc := fun _ => "", hexDec := fun _ => some [], durEnc := fun _ => "", durDec := fun _ => some 0,
+    pointOk := fun _ _ => true, scalarOk := fun _ _ => true, addrOk := fun _ => true,
+    gHash := fun _ => [0], cHash := fun _ => [0] }
+
+/-- the witness: no nodes, threshold 1 (out of range: the range for n = 0 is empty), otherwise sane -/
+def emptyNodesPacket : GroupPacket :=
+  { nodes := [], threshold := 1, period := 30, genesisTime := 1700000000, transitionTime := 0, genesisSeed := [],
+    distKey := [], catchupPeriod := 0, schemeID := "pedersen-bls-chained", beaconID := [] }
+
+/-- Counterexample to the full statement for the code as it is: a node-less packet with threshold 1 is out of
+range and accepted (any threshold ≥ 1 is). Replayed on the real `GroupFromProto` by the check
+(known finding `group-proto:threshold-above-n:empty-node-list`). -/
+theorem c20_reject_threshold_proto_counterexample :
+    ¬ thresholdInRange emptyNodesPacket.threshold emptyNodesPacket.nodes.length ∧
+    ∃ g, Group.fromProto false Leaf.permissive emptyNodesPacket none = .ok g ∧ g.threshold = 1 ∧ g.nodes = [] := by
+  refine ⟨by unfold thresholdInRange; decide, ?_⟩
+  refine ⟨{ threshold := 1, period := 30000000000, scheme := "pedersen-bls-chained", id := [], catchup := 0, nodes := [],
+            genesisTime := 1700000000, genesisSeed := none, transitionTime := 0, publicKey := none }, ?_, rfl, rfl⟩
+  simp [Group.fromProto, emptyNodesPacket, schemeFromName, Gen.schemeNames, targetMismatch, mapE, Gen.minimumT, i64OfU64]
+
+/-- an unknown scheme name is rejected on the TOML path (the empty name means the default scheme there) -/
+theorem c20_reject_scheme_toml (L : Leaf) (gt : GroupTOML) (h0 : gt.schemeID ≠ "") (h : gt.schemeID ∉ Gen.schemeNames) :
+    Group.fromTOML L gt = .error .badScheme := by
+  simp [Group.fromTOML, getSchemeByID, schemeFromName, h0, h]
+
+/-- an unknown scheme name (including the empty one) is rejected on the protobuf path, in both variants -/
+theorem c20_reject_scheme_proto (strict : Bool) (L : Leaf) (p : GroupPacket) (target : Option String)
+    (h : p.schemeID ∉ Gen.schemeNames) : Group.fromProto strict L p target = .error .badScheme := by
+  simp [Group.fromProto, schemeFromName, h]
+
+/-! ### Share, key pair -/
+
+/-- a private share file written by `Share.TOML` reads back as the same share -/
+theorem c20_share (L : Leaf) (ok : LeafOK L) (s : Share) (wf : s.WF L) :
+    Share.fromTOML L (s.toTOML L) = .ok s := by
+  have hc : mapE (decPoint L s.scheme) (s.commits.map L.hexEnc) = .ok (s.commits.map id) :=
+    mapE_map _ _ _ _ (fun c hc => decPoint_enc ok (wf.commits c hc))
+  simp [Share.fromTOML, Share.toTOML, getSchemeByID_known wf.scheme, hc, decScalar_enc ok wf.share]
+
+/-- `Pair.FromTOML (p.TOML())` alone returns only the private scalar and the scheme; the key pair is persisted as
+two files (`SaveKeyPair`) and `LoadKeyPair` of both gives the pair back -/
+theorem c20_pair (L : Leaf) (ok : LeafOK L) (p : Pair) (wf : p.WF L) :
+    loadKeyPair L (saveKeyPair L p) = .ok p := by
+  obtain ⟨s, hs, hk, hp, hsc⟩ := wf.pub
+  obtain ⟨key, pub⟩ := p
+  obtain ⟨pk, addr, sig, scheme⟩ := pub
+  simp only at hs hp hsc
+  subst hs
+  simp only [loadKeyPair, saveKeyPair, Pair.fromTOML, Pair.toTOML, Option.getD_some, getSchemeByID_known hk,
+    decScalar_enc ok hsc, Identity.fromTOML, Identity.toTOML, decPoint_enc ok hp, Identity.zero]
+  by_cases he : L.hexEnc sig = ""
+  · have : sig = [] := by
+      by_cases h0 : sig = []
+      · exact h0
+      · exact absurd he (ok.hex_nonempty _ h0)
+    subst this
+    simp [he]
+  · simp [he, ok.hex_rt]
+
+/-! ### chain.Info -/
+
+private theorem secondsU64_whole (k : Nat) (h : k < 4294967296) : secondsU64 ((k : Int) * 1000000000) = k := by
+  unfold secondsU64 u64OfInt
+  rw [Int.mul_ediv_cancel _ (by decide : (1000000000 : Int) ≠ 0), Int.emod_eq_of_lt (by omega) (by omega)]
+  simp
+
+/-- chain info served as JSON (`MarshalJSON`) and read by `UnmarshalJSON` is the same info (so `Equal`, same hash) -/
+theorem c20_info_json (L : Leaf) (ok : LeafOK L) (i : Info) (wf : i.WF L) :
+    Info.unmarshalJSON L (jsonWire (i.marshalJSON L)) = .ok i ∧ i.equal i = true := by
+  obtain ⟨k, hk, hper⟩ := wf.period
+  have hw : wrapI64 ((k : Int) * 1000000000) = (k : Int) * 1000000000 := i64_u64 _ (by omega)
+  refine ⟨?_, by simp [Info.equal, compareBeaconIDs]⟩
+  obtain ⟨pk, id, period, scheme, gt, seed⟩ := i
+  simp only at hper
+  subst hper
+  have hne : scheme ≠ "" := fun e => empty_not_scheme (e ▸ wf.scheme)
+  simp only [Info.unmarshalJSON, jsonWire, Info.marshalJSON, ok.hex_rt, secondsU64_whole k hk, hw]
+  simp [hne, getSchemeByID_known wf.scheme, wf.key]
+
+/-- chain info sent as a `ChainInfoPacket` and read by `InfoFromProto` is the same info -/
+theorem c20_info_proto (L : Leaf) (i : Info) (wf : i.WF L) :
+    infoFromProto L (i.toProto L) = .ok i ∧ i.equal i = true := by
+  obtain ⟨k, hk, hper⟩ := wf.period
+  refine ⟨?_, by simp [Info.equal, compareBeaconIDs]⟩
+  obtain ⟨pk, id, period, scheme, gt, seed⟩ := i
+  simp only at hper
+  subst hper
+  simp [infoFromProto, Info.toProto, getSchemeByID_known wf.scheme, wf.key, secondsU32_whole k hk]
+
+/-- the asymmetry the scheme hypothesis of `c20_info_proto` excludes: an info whose scheme name is empty (as read
+from a legacy JSON document) comes back from the protobuf path with the default scheme's name, and `Info.Equal`
+compares names literally -/
+theorem c20_info_proto_empty_scheme (L : Leaf) (i : Info) (hs : i.scheme = "")
+    (hk : L.pointOk Gen.defaultSchemeID i.publicKey = true) :
+    ∃ i', infoFromProto L (i.toProto L) = .ok i' ∧ i'.scheme = Gen.defaultSchemeID ∧ i.equal i' = false := by
+  refine ⟨{ i with scheme := Gen.defaultSchemeID, period := (secondsU32 i.period : Int) * 1000000000 }, ?_, rfl, ?_⟩
+  · simp [infoFromProto, Info.toProto, hs, getSchemeByID_empty, hk]
+  · have : ("" == Gen.defaultSchemeID) = false := by decide
+    simp [Info.equal, hs, this]
+
+/-! ### Beacon -/
+
+/-- a beacon stored / served as JSON reads back as the same beacon (absent previous signature = empty) -/
+theorem c20_beacon_json (L : Leaf) (ok : LeafOK L) (b : Beacon) :
+    beaconFromJSON L (beaconToJSON L b) = .ok b := by
+  obtain ⟨r, s, p⟩ := b
+  by_cases hp : p = []
+  · subst hp; simp [beaconFromJSON, beaconToJSON, ok.hex_rt]
+  · simp [beaconFromJSON, beaconToJSON, ok.hex_rt, hp]
+
+/-- a beacon sent as a `BeaconPacket` is the same beacon, whatever the beacon id on the packet -/
+theorem c20_beacon_proto (b : Beacon) (id : Bytes) : protoToBeacon (beaconToProto b id) = b := rfl
+
+/-! ### DBState -/
+
+private theorem optE_map {α β γ : Type} (f : β → Dec γ) (g : α → β) (h : α → γ) (o : Option α)
+    (hh : ∀ a, o = some a → f (g a) = .ok (h a)) : optE f (o.map g) = .ok (o.map h) := by
+  cases o with
+  | none => rfl
+  | some a => simp [optE, hh a rfl]
+
+/-- Full statement for the DKG database record: `DBStateTOML.FromTOML (d.TOML())` succeeds and the result `Equals`
+the original; explicitly it is the original with the genesis time in UTC and the final group as it comes back
+from the group TOML path (`c20_group_toml`). -/
+theorem c20_dbstate (L : Leaf) (ok : LeafOK L) (d : DBState) (wf : d.WF L) :
+    DBStateTOML.fromTOML L (d.toTOML L) = .ok (d.canon L) ∧ DBState.equals L d (d.canon L) = true := by
+  refine ⟨?_, ?_⟩
+  · have hs : optE (Share.fromTOML L) (d.keyShare.map (Share.toTOML L)) = .ok (d.keyShare.map id) :=
+      optE_map _ _ _ _ (fun s hs => c20_share L ok s (wf.share s hs))
+    have hg : optE (finalGroupFromTOML L d.schemeID) (d.finalGroup.map (Group.toTOML L)) =
+        .ok (d.finalGroup.map (Group.canonTOML L)) :=
+      optE_map _ _ _ _ (fun g hg => by
+        obtain ⟨hw, hsch⟩ := wf.group g hg
+        have : ∃ s, getSchemeByID d.schemeID = .ok s := by
+          rcases hsch with h | h
+          · exact ⟨Gen.defaultSchemeID, by rw [h]; exact getSchemeByID_empty⟩
+          · exact ⟨_, getSchemeByID_known h⟩
+        obtain ⟨s, hs⟩ := this
+        simp [finalGroupFromTOML, hs, (c20_group_toml L ok g hw).1])
+    simp [DBStateTOML.fromTOML, DBState.toTOML, hs, hg, DBState.canon, GoTime.utc]
+  · have hgr : (match d.finalGroup, d.finalGroup.map (Group.canonTOML L) with
+               | none, none => true
+               | some g, some g2 => g.equal L g2
+               | _, _ => false) = true := by
+      cases hg : d.finalGroup with
+      | none => rfl
+      | some g => simpa using (c20_group_toml L ok g (wf.group g hg).1).2.1
+    simp only [DBState.equals, DBState.canon, GoTime.utc, GoTime.unix, beq_self_eq_true, Bool.and_true, Bool.true_and]
+    exact hgr
+
+/-! ### regenerated facts: every field of every mirror is carried (the hand-maintained-mirror hazard) -/
+
+/-- For every (type, mirror, to, from) conversion pair regenerated from the source: every field of the type is read by
+the to-function, every field of the mirror is written by it, every field of the mirror is read by the from-function
+and every field of the type is written by it — except the commented `coverageExemptions`. -/
+theorem c20_fields_covered : Gen.mirrors.all (Mirror.covered coverageExemptions) = true := by decide
+
+/-- no stale exemption: each one names a field that exists and really is not touched -/
+theorem c20_exemptions_needed : coverageExemptions.all (exemptionNeeded Gen.mirrors) = true := by decide
+
+/-- the pairs analysed are the ones listed, and their struct field lists are the ones the Lean model has -/
+theorem tie_mirror_fields :
+    Gen.mirrors.map (fun m => (m.name, m.typeFields, m.mirrorFieldsFrom)) = modelFields := by decide
+
+/-- named mirrors have one field list; the JSON mirror's decode side has every encode-side entry under the same tag -/
+theorem c20_info_json_tags :
+    (Gen.mInfo_JSON.mirrorFieldsTo.zip Gen.mInfo_JSON_toTags).all
+      (fun ft => (Gen.mInfo_JSON.mirrorFieldsFrom.zip Gen.mInfo_JSON_fromTags).contains ft) = true ∧
+    (Gen.mirrors.all fun m => m.name == "Info/JSON" || m.mirrorFieldsTo == m.mirrorFieldsFrom) = true := by decide
+
+theorem tie_beacon_json : Gen.beaconFields = ["PreviousSig", "Round", "Signature"] ∧ Gen.beaconJsonTags = beaconJsonTags := by
+  decide
+
+theorem tie_guards :
+    Gen.groupFromTOMLGuards = groupFromTOMLGuards ∧ Gen.groupFromProtoGuards = groupFromProtoGuards ∧
+    Gen.identityFromProtoGuards = identityFromProtoGuards ∧ Gen.infoUnmarshalJSONGuards = infoUnmarshalJSONGuards ∧
+    Gen.dbStateFromTOMLGuards = dbStateFromTOMLGuards := by decide
+
+theorem tie_minimumT (n : Nat) : Gen.minimumT n = n / 2 + 1 := minimumT_eq n
+
+theorem tie_schemes : Gen.defaultSchemeID ∈ Gen.schemeNames ∧ "" ∉ Gen.schemeNames ∧ Gen.schemeNames.length = 5 := by decide
+
+/-! ### the demo leaf satisfies `LeafOK` (the hypotheses are satisfiable; hex is the real encoding) -/
+
+private theorem hexVal_hexDigit : ∀ n : Fin 16, hexVal (hexDigit n.val) = some n.val := by decide
+
+private theorem byte_split (x : UInt8) : UInt8.ofNat (x.toNat / 16 * 16 + x.toNat % 16) = x := by
+  have : x.toNat / 16 * 16 + x.toNat % 16 = x.toNat := by omega
+  rw [this]; simp
+
+private theorem fromHexAux_enc (b : Bytes) :
+    fromHexAux (b.flatMap fun x => [hexDigit (x.toNat / 16), hexDigit (x.toNat % 16)]) = some b := by
+  induction b with
+  | nil => rfl
+  | cons x t ih =>
+    have h1 := hexVal_hexDigit ⟨x.toNat / 16, by have := x.toNat_lt; omega⟩
+    have h2 := hexVal_hexDigit ⟨x.toNat % 16, by omega⟩
+    simp only at h1 h2
+    simp only [List.flatMap_cons, List.cons_append, List.nil_append, fromHexAux, h1, h2, ih, byte_split]
+
+/-- lower-case hex decodes to what was encoded -/
+theorem c20_hex_roundtrip (b : Bytes) : hexDecC (hexEncC b) = some b := by
+  simp [hexDecC, hexEncC, fromHexAux_enc]
+
+theorem c20_leaf_demo_ok : LeafOK Leaf.demo where
+  hex_rt := c20_hex_roundtrip
+  hex_nonempty := by
+    intro b h e
+    have := congrArg String.toList e
+    cases b with
+    | nil => exact h rfl
+    | cons x t => simp [Leaf.demo, hexEncC] at this
+  dur_rt := by
+    intro d
+    by_cases h : 0 ≤ d
+    · simp [Leaf.demo, durEncU, durDecU, h, Int.toNat_of_nonneg h]
+    · have h' : 0 ≤ -d := by omega
+      simp [Leaf.demo, durEncU, durDecU, h, Int.toNat_of_nonneg h']
+  dur_nonempty := by
+    intro d e
+    have := congrArg String.toList e
+    by_cases h : 0 ≤ d <;> simp [Leaf.demo, durEncU, h] at this
+  ghash_nonempty := by intro p; simp [Leaf.demo]
+
+/-! ### non-vacuity: the hypotheses hold on concrete, non-trivial values (demo leaf) -/
+
+private def sch0 : String := "pedersen-bls-unchained"
+private def demoIdent (k : UInt8) : Identity := ⟨[k, k + 1], "127.0.0.1:8080", [9, k], some sch0⟩
+/-- 3 nodes with sparse, unsorted indices, threshold 2, no stored seed, empty id, a distributed key -/
+private def demoGroup : Group :=
+  { threshold := 2, period := 30000000000, scheme := sch0, id := [], catchup := 5000000000,
+    nodes := [⟨demoIdent 1, 7⟩, ⟨demoIdent 3, 0⟩, ⟨demoIdent 5, 2⟩], genesisTime := 1700000000, genesisSeed := none,
+    transitionTime := 1700000500, publicKey := some [[5, 6], [7, 8]] }
+
+private theorem demoGroup_wfTOML : demoGroup.WFTOML Leaf.demo where
+  scheme := by decide
+  nodes := by
+    intro n hn
+    simp only [demoGroup, List.mem_cons, List.not_mem_nil, or_false] at hn
+    rcases hn with rfl | rfl | rfl <;> exact ⟨sch0, rfl, by decide, by decide⟩
+  thrLow := by decide
+  thrHigh := by decide
+  coeffs := by
+    intro cs h c hc
+    simp only [demoGroup, Option.some.injEq] at h
+    subst h
+    simp only [List.mem_cons, List.not_mem_nil, or_false] at hc
+    rcases hc with rfl | rfl <;> decide
+  seed := by decide
+
+private theorem demoGroup_wfProto : demoGroup.WFProto Leaf.demo where
+  scheme := by decide
+  nodes := by
+    intro n hn
+    simp only [demoGroup, List.mem_cons, List.not_mem_nil, or_false] at hn
+    rcases hn with rfl | rfl | rfl <;> exact ⟨by decide, by decide⟩
+  thrLow := by decide
+  thrHigh := by decide
+  nodesFit := by decide
+  period := ⟨30, by decide, by decide, by decide⟩
+  catchup := ⟨5, by decide, by decide⟩
+  genesisNZ := by decide
+  genesis64 := by decide
+  transition64 := by decide
+  coeffs := by
+    intro cs h
+    simp only [demoGroup, Option.some.injEq] at h
+    subst h
+    refine ⟨by decide, ?_⟩
+    intro c hc
+    simp only [List.mem_cons, List.not_mem_nil, or_false] at hc
+    rcases hc with rfl | rfl <;> decide
+  seed := by decide
+
+example : Group.fromTOML Leaf.demo (demoGroup.toTOML Leaf.demo) = .ok (demoGroup.canonTOML Leaf.demo) :=
+  (c20_group_toml _ c20_leaf_demo_ok _ demoGroup_wfTOML).1
+-- the result is not literally the original: the seed was materialised and the id canonicalised
+example : (demoGroup.canonTOML Leaf.demo).genesisSeed = some [2, 7] ∧ (demoGroup.canonTOML Leaf.demo).id = defaultId ∧
+    demoGroup.canonTOML Leaf.demo ≠ demoGroup := by decide
+example : Group.fromProto false Leaf.demo (demoGroup.toProto Leaf.demo) (some sch0) = .ok (demoGroup.canonProto Leaf.demo) :=
+  (c20_group_proto false _ c20_leaf_demo_ok _ demoGroup_wfProto _ (Or.inr rfl)).1
+example : (demoIdent 1).WF Leaf.demo := ⟨sch0, rfl, by decide, by decide⟩
+example : Identity.fromTOML Leaf.demo Identity.zero ((demoIdent 1).toTOML Leaf.demo) = .ok (demoIdent 1) :=
+  (c20_identity _ c20_leaf_demo_ok _ ⟨sch0, rfl, by decide, by decide⟩).1
+
+-- rejection: 3 nodes, threshold 4 / 1 are out of range; an unknown scheme
+example : ¬ thresholdInRange 4 ((demoGroup.toTOML Leaf.demo).nodes.length) := by unfold thresholdInRange; decide
+example : ¬ thresholdInRange 1 ((demoGroup.toProto Leaf.demo).nodes.length) := by unfold thresholdInRange; decide
+example : ∃ e, Group.fromTOML Leaf.demo { demoGroup.toTOML Leaf.demo with threshold := 4 } = .error e :=
+  c20_reject_threshold_toml _ _ (by unfold thresholdInRange; decide)
+example : ∃ e, Group.fromProto false Leaf.demo { demoGroup.toProto Leaf.demo with threshold := 10 } none = .error e :=
+  c20_reject_threshold_proto_partial _ _ _ (by decide) (by unfold thresholdInRange; decide)
+example : Group.fromTOML Leaf.demo { demoGroup.toTOML Leaf.demo with schemeID := "bls-unknown" } = .error .badScheme :=
+  c20_reject_scheme_toml _ _ (by decide) (by decide)
+example : Group.fromProto false Leaf.demo { demoGroup.toProto Leaf.demo with schemeID := "" } none = .error .badScheme :=
+  c20_reject_scheme_proto _ _ _ _ (by decide)
+
+private def demoShare : Share := { commits := [[5, 6], [7, 8]], shareI := 3, shareV := [42], scheme := sch0 }
+private theorem demoShare_wf : demoShare.WF Leaf.demo where
+  scheme := by decide
+  commits := by
+    intro c hc
+    simp only [demoShare, List.mem_cons, List.not_mem_nil, or_false] at hc
+    rcases hc with rfl | rfl <;> decide
+  share := by decide
+example : Share.fromTOML Leaf.demo (demoShare.toTOML Leaf.demo) = .ok demoShare := c20_share _ c20_leaf_demo_ok _ demoShare_wf
+
+private def demoPair : Pair := ⟨[77], demoIdent 1⟩
+example : loadKeyPair Leaf.demo (saveKeyPair Leaf.demo demoPair) = .ok demoPair :=
+  c20_pair _ c20_leaf_demo_ok _ ⟨⟨sch0, rfl, by decide, by decide, by decide⟩⟩
+-- the private file alone does not carry the public part
+example : ∃ p, Pair.fromTOML Leaf.demo (demoPair.toTOML Leaf.demo) = .ok p ∧ p ≠ demoPair :=
+  ⟨⟨[77], { Identity.zero with scheme := some sch0 }⟩, by
+    simp [Pair.fromTOML, Pair.toTOML, demoPair, demoIdent, getSchemeByID_known (by decide : sch0 ∈ Gen.schemeNames),
+      decScalar, Leaf.demo, c20_hex_roundtrip], by decide⟩
+
+private def demoInfo : Info :=
+  { publicKey := [5, 6], id := [99, 104], period := 3000000000, scheme := sch0, genesisTime := 1700000000, genesisSeed := [2, 7] }
+private theorem demoInfo_wf : demoInfo.WF Leaf.demo := ⟨by decide, by decide, ⟨3, by decide, by decide⟩⟩
+example : Info.unmarshalJSON Leaf.demo (jsonWire (demoInfo.marshalJSON Leaf.demo)) = .ok demoInfo :=
+  (c20_info_json _ c20_leaf_demo_ok _ demoInfo_wf).1
+example : infoFromProto Leaf.demo (demoInfo.toProto Leaf.demo) = .ok demoInfo := (c20_info_proto _ _ demoInfo_wf).1
+example : beaconFromJSON Leaf.demo (beaconToJSON Leaf.demo ⟨5, [1, 2], []⟩) = .ok ⟨5, [1, 2], []⟩ :=
+  c20_beacon_json _ c20_leaf_demo_ok _
+
+private def demoState : DBState :=
+  { beaconID := [100], epoch := 2, state := 7, threshold := 2, timeout := ⟨1700000000123456789, 7200⟩, schemeID := sch0,
+    genesisTime := ⟨1700000000000000000, 3600⟩, genesisSeed := [2, 7], catchupPeriod := 5000000000,
+    beaconPeriod := 30000000000, leader := some ⟨"a:1", [1], [2]⟩, remaining := [⟨"a:1", [1], [2]⟩], joining := [⟨"b:1", [3], []⟩],
+    leaving := [], acceptors := [⟨"a:1", [1], [2]⟩], rejectors := [], finalGroup := some demoGroup, keyShare := some demoShare }
+private theorem demoState_wf : demoState.WF Leaf.demo where
+  share := by intro s h; simp only [demoState, Option.some.injEq] at h; subst h; exact demoShare_wf
+  group := by
+    intro g h; simp only [demoState, Option.some.injEq] at h; subst h
+    exact ⟨demoGroup_wfTOML, Or.inr (by decide)⟩
+example : DBStateTOML.fromTOML Leaf.demo (demoState.toTOML Leaf.demo) = .ok (demoState.canon Leaf.demo) :=
+  (c20_dbstate _ c20_leaf_demo_ok _ demoState_wf).1
+example : (demoState.canon Leaf.demo).genesisTime = ⟨1700000000000000000, 0⟩ := rfl
+
+-- coverage: a conversion that forgets a field is NOT covered (the theorem is not vacuous)
+example : Mirror.covered coverageExemptions
+    { Gen.mDBState_TOML with toReads := Gen.mDBState_TOML.toReads.erase "CatchupPeriod" } = false := by decide
 
 end Drand.Codec
